@@ -60,16 +60,32 @@ def canon(t):
     return t.replace("[]", "~")
 
 
+def private_json(ctx, gens):
+    """The translator's JSON side copies, regenerated into this run's scratch directory
+    (build/gen is shared between concurrent runs, also with private worktrees)."""
+    import json
+    d = os.path.join(ctx.scratch, "genjson")
+    rc, out = ctx.run([os.path.join(vlib.BIN, "translator"), "-repo", vlib.REPO, "-out", os.path.join(ctx.scratch, "genv"),
+                       "-json", d] + list(gens), cwd=vlib.REPO, timeout=300)
+    if rc != 0:
+        ctx.broken("translator(%s)" % ",".join(gens), out[-800:])
+        return None, d
+    return {g: json.load(open(os.path.join(d, g + ".json"))) for g in gens}, d
+
+
 def run(ctx):
     gen_ok = ctx.regen(["aststructs", "goaststructs", "astconv", "tokens"])
     ctx.prove("C37")
     model = ctx.model("c37")
     impl = ctx.harness("c37")
-    gostructs = os.path.join(vlib.BUILD, "gen", "goaststructs.json")
+    js, jdir = private_json(ctx, ["goaststructs"])
+    if js is None:
+        return
+    gostructs = os.path.join(jdir, "goaststructs.json")
 
     repo_files = go_files(vlib.REPO, skip_testdata=False)
     std = go_files(os.path.join(goroot(), "src"))
-    nstd = ctx.n(250, len(std))
+    nstd = ctx.n(120, len(std))
     if nstd < len(std):
         # seeded sample without replacement
         idx = list(range(len(std)))
@@ -82,7 +98,7 @@ def run(ctx):
     cases = ["src\t" + w.hex() for w in WITNESSES]
     cases += ["file\t" + p for p in repo_files]
     cases += ["file\t" + p for p in std_pick]
-    ngen = ctx.n(700, 20000)
+    ngen = ctx.n(400, 20000)
     cases += ["gen\t%d" % (ctx.rng.next() % (1 << 62)) for _ in range(ngen)]
 
     rc, out = ctx.run([impl, "-gostructs", gostructs, "run"], input="\n".join(cases) + "\n", timeout=900)
